@@ -113,12 +113,18 @@ def run(ctx, report):
             b = batch(rng, schema, n, 1000 * (step + 1), cat_pool)
             if layout.endswith("catgrow") and n:
                 b["c"] = pd.Categorical(list(b["c"].astype(object))[:-1] + [cat_pool[-1]], categories=cat_pool)   # the newest label is used
+            if (step == 0 and s % 3 == 0) or rng.random() < 0.15:
+                # the same names and dtypes in ANOTHER column order: columns are matched by name, not by position
+                b = b[list(reversed(b.columns))]
+                n_perm = True
+            else:
+                n_perm = False
             codec = rng.choice([None, None, "SNAPPY", "GZIP", "ZSTD"])
             offs = rng.choice([None, [0], [0, n // 2] if n > 1 else [0], 2])
             before_bytes = open(path, "rb").read() if simple else None
             before_tree = None if simple else sha_tree(path)
             rec = {"check": "append", "layout": layout, "step": step, "rows": n, "codec": codec, "offsets": str(offs),
-                   "schema": [k for _n, k in schema], "cats_differ": bool(cats_differ)}
+                   "schema": [k for _n, k in schema], "cats_differ": bool(cats_differ), "columns_permuted": n_perm}
             fs = RecFS()
             try:
                 old_refs = None if simple else c19.dataset_refs(path)
